@@ -10,7 +10,32 @@ for fn in sorted(os.listdir(os.path.join(HERE, "props"))):
         spec = importlib.util.spec_from_file_location("prop_" + fn[:-3], os.path.join(HERE, "props", fn))
         m = importlib.util.module_from_spec(spec)
         spec.loader.exec_module(m)
-        PROPS[fn[:-3]] = m.SPEC
+        if hasattr(m, "SPEC"):
+            PROPS[fn[:-3]] = m.SPEC
+
+# Parts: tools/props/Cxx_<part>.py (SPEC_PART: props_file, legs, trusted, assumptions, covers) extends property Cxx with a
+# further Props file and further correspondence legs.  A part takes effect only when it is listed in tools/ready.txt
+# (or, for development, in the environment variable VERIF_PARTS, comma separated).
+_ready = {l.strip() for l in open(os.path.join(HERE, "ready.txt")) if l.strip() and not l.startswith("#")}
+_ready |= {x for x in os.environ.get("VERIF_PARTS", "").split(",") if x}
+PARTS = {}
+for fn in sorted(os.listdir(os.path.join(HERE, "props"))):
+    if fn.endswith(".py") and fn[0] == "C" and "_" in fn:
+        name = fn[:-3]; pid = name.split("_")[0]
+        spec = importlib.util.spec_from_file_location("prop_" + name, os.path.join(HERE, "props", fn))
+        m = importlib.util.module_from_spec(spec)
+        spec.loader.exec_module(m)
+        part = getattr(m, "SPEC_PART", None)
+        if part is None or pid not in PROPS:
+            continue
+        PARTS[name] = part
+        if name in _ready:
+            sp = PROPS[pid]
+            sp.setdefault("props_files", [sp["props_file"]]).append(part["props_file"])
+            sp["legs"] = sp["legs"] + part.get("legs", [])
+            sp["trusted"] = sp.get("trusted", []) + part.get("trusted", [])
+            sp["assumptions"] = sp.get("assumptions", []) + part.get("assumptions", [])
+            sp.setdefault("covers", []).append(part.get("covers", name))
 
 # commits in /repo that add the (feature-gated, add-only) verification hooks
 HOOK_COMMITS = [l.split()[0] for l in open(os.path.join(HERE, "..", "hooks_commits.txt")) if l.strip()]
